@@ -63,6 +63,18 @@ def parse_cli(line):
     return events, sel, st
 
 
+class NullCli:
+    """stands in while no client program is running"""
+    dead = None
+    ops, lines = [], []
+
+    def send(self, op):
+        return "ok"
+
+    def close(self):
+        pass
+
+
 class Relay:
     """A DNS path that applies a FIXED transformation (property C11).  Identity by default."""
 
@@ -157,6 +169,7 @@ class World:
     def __init__(self, rng, srv_exe, cli_exe, relay=None, real_z=False, qtype=10, downenc="-", lazy=1, maxlen=255, pw=b"secret",
                  td=b"t.example.com", check_ip=1, seltimeout=4, netbits=27, raw_mode=0, autofrag=1, fragsize=1200, force_codec=None):
         self.rng = rng
+        self.cli_exe, self.real_z = cli_exe, real_z
         self.relay = relay or Relay(rng=rng)
         self.s = srvgen.Harness(srv_exe, real_z)
         self.c = CliProc(cli_exe, real_z)
@@ -177,6 +190,21 @@ class World:
         self.sop("rand %d %d %d %d" % tuple(rng.randrange(1 << 31) for _ in range(4)))
         self.cop("ccfg %s %s %d %d %s %d %d 0 1 0" % (vlib.hx(td), vlib.hx(pw), maxlen, qtype, downenc, lazy, seltimeout))
         self.cop("crand " + " ".join(str(rng.randrange(1 << 31)) for _ in range(64)))
+        self.hs_args = (raw_mode, autofrag, fragsize)
+
+    def new_client(self, relay=None, qtype=10, downenc="-", lazy=1, maxlen=255, seltimeout=4, raw_mode=0, autofrag=1, fragsize=1200):
+        """the client program is stopped and started again (same server process, same address): a fresh client process, possibly on another path"""
+        self.c.close()
+        self.c = CliProc(self.cli_exe, self.real_z)
+        if relay is not None:
+            self.relay = relay
+        self.c_sel = self.c_deadline = None
+        self.c_state, self.c_ret = {}, None
+        self.up, self.down = [], []
+        self.pending_c = []
+        self.cop("ccfg %s %s %d %d %s %d %d 0 1 0" % (vlib.hx(self.td), vlib.hx(self.pw), maxlen, qtype, downenc, lazy, seltimeout))
+        self.cop("crand " + " ".join(str(self.rng.randrange(1 << 31)) for _ in range(64)))
+        self.cop("ctime %d" % (self.ms // 1000))
         self.hs_args = (raw_mode, autofrag, fragsize)
 
     # ---- plumbing
